@@ -18,6 +18,7 @@ from lib import common
 from llsym import codec, core, dsdlspec as D
 from llsym.core import bv
 from checks import codec_common as cc
+from checks import py_common
 
 _TYPES = []
 _TIER = ["quick"]
@@ -291,6 +292,8 @@ PAIRS_ALL = [("default", "little"), ("default", "any+asserts"), ("little", "litt
 
 
 def _work(a):
+    if a[0] == "py":
+        return py_common.work((a[1], a[2], _TIER[0]))
     ti, kind, on_a, on_b = a
     t = _TYPES[ti]
     out = []
@@ -329,17 +332,26 @@ def main(tier: str) -> int:
         _TYPES[:] = types
         tasks = [(i, "chain", on, None) for on in (("default", "little", "cpp14") if tier == "quick" else optnames) for i in range(len(types))]
         tasks += [(i, "cross", a, b) for a, b in pairs for i in range(len(types))]
+        py_common.generate(d, d / "dsdl" / "vt")
+        py_common.TYPES[:] = types
+        tasks += [("py", "rt", i) for i in range(len(types))]
         for res in common.pmap(_work, tasks):
             for ti, on, what, lg, tu, wall in res:
-                cc.record(rep, types[ti], on, what, lg, tu, wall, replayer=replay_c03)
+                cc.record(rep, types[ti], on, what, lg, tu, wall, replayer=py_common.replayer(types[ti]) if on == "py" else replay_c03)
+        py_common.cosim(rep, types, per_type=1)
         rep.functions = ["<T>_serialize_ and <T>_deserialize_ of every corpus type, chained (end states of one run are the start states of the next) and paired across builds"]
         rep.bounds = dict(types=len(types), chain="serialize at the maximum size, deserialize exactly the produced bytes, serialize again",
                           option_pairs=[f"{a} vs {b}" for a, b in pairs], cross_deserialize_lengths=("{0,1,ceil(max/2),max,max+1}" if tier == "quick" else "0..max(extent,max)+2"),
                           data="all object bytes / all buffer bytes symbolic")
     rep.assumptions = ["bool storage bytes are 0 or 1", "cast-mode adjustment of integers/floats is stated directly on the field terms (saturate/truncate, float16 faithful "
                        "rounding); the wire layout reference model is NOT used, except to tell which decoded fields are meaningful for a wire shape",
-                       "cross-target: C <-> C++ is covered through the mirror harness (valid objects only on the C++ side); Python is NOT covered"]
-    rep.not_covered = ["Python target", "C++ pmr/cetl allocator and container flavours, C++ bit arrays", "types not in the corpus"]
+                       "cross-target: C <-> C++ is covered through the mirror harness (valid objects only on the C++ side); Python: the round trip is decided "
+                       "here (pysym); agreement of Python with C/C++ is NOT a query of this check: it follows, for the integer/boolean/array/union/delimiter "
+                       "layout, from C01 and C02 deciding each target against the same reference model over the same corpus, and is not established for the "
+                       "rounding of float16/float32 values that are not exactly representable (both targets are only shown to round faithfully)",
+                       "Python round trip: scalar float fields are assumed not NaN (payloads are not modelled)"] + py_common.ASSUMPTIONS
+    rep.functions.append("Python target: <T>._serialize_ -> <T>._deserialize_ -> <T>._serialize_ of every corpus type in one pysym run per value shape")
+    rep.not_covered = ["direct C <-> Python cross-target queries (see assumptions)", "C++ pmr/cetl allocator and container flavours, C++ bit arrays", "types not in the corpus"]
     rep.extra["explanation"] = ("llsym: symbolic execution continued across serialize -> deserialize -> serialize; z3 proves decoded == cast-adjusted original and "
                                 "byte-identical re-serialization on every path; two option builds executed on the same symbolic input and their path summaries paired")
     rep.extra["trusted_base"] = ["clang 14", "z3 5.1", "llsym interpreter", "pydsdl"]
